@@ -415,7 +415,12 @@ INSIDE = ['on "Top"', 'off "Top"', 'on group "Pole"', 'off location "Home"',
           'stage row 0 on "Top" stage row 1', 'repeat 2 on "Top"',
           'if 1 off "a"', 'assign zz_v 2', 'zz_r', '[ zz_r ]',
           'repeat all as zz_l on zz_l', 'repeat 2 with zz_i from 0 to 1 '
-          'stage row zz_i', 'set "a" and "Top"', 'on "a" and "Candle"']
+          'stage row zz_i', 'set "a" and "Top"', 'on "a" and "Candle"',
+          # power aimed at a part of a light
+          'on "Strip" zone 5', 'off "Top" and "Strip" zone 2 4',
+          'on "Candle" row 1', 'off "Candle" row 0 column 1 2',
+          'on "Candle" begin stage row 1 end', 'off "Strip" zone 1 and "a"',
+          'get "Strip" zone 2', 'get "Candle" row 1', 'on group "Pole" zone 1']
 
 
 def class_f(rng):
@@ -423,6 +428,7 @@ def class_f(rng):
     around it): accepted or rejected, but never a program that faults the VM"""
     inner = ' '.join(rng.choice(INSIDE) for _ in range(rng.randint(1, 3)))
     form = rng.choice([
+        '{} print 1', 'define zz_q begin {} end zz_q',
         'set "Candle" begin {} end print 1',
         'set "Candle" begin stage row 1 {} stage column 2 end print 1',
         'define zz_r begin on "Top" return 1 end set "Candle" begin {} end',
@@ -431,6 +437,29 @@ def class_f(rng):
         'set "Top" begin {} end', 'set "Nobody" begin {} end print 1',
         'on "Candle" begin {} end', 'set "Candle" row 1 begin {} end'])
     return form.format(inner)
+
+
+EXPR_TOKENS = ['1', '2', '0.5', 'zz_x', '(', ')', '+', '-', '*', '/', '%', '^',
+               'and', 'or', 'not', '<', '>=', '==', '!=', '"^"', '"+"', '"-"',
+               '"and"', '"("', '")"', '"{"', '"}"', '[', 'zz_f', ']', '{', '}',
+               'hue', '"a"', '-', '^', '^']
+
+
+def class_g(rng):
+    """token soups inside braces, quoted operators among them"""
+    toks = [rng.choice(EXPR_TOKENS) for _ in range(rng.randint(2, 10))]
+    if rng.random() < 0.3:
+        # an operator, then the same operator in quotes
+        op = rng.choice(['+', '-', '*', '/', '%', '^', 'and', 'or', '<', '=='])
+        toks = [rng.choice(['1', '2', 'zz_x']), op, rng.choice(['3', 'zz_x']),
+                '"{}"'.format(op)] + toks[:rng.randint(0, 3)]
+    form = rng.choice(['assign zz_x 3 assign zz_y {{ {} }}',
+                       'assign zz_x 3 print {{ {} }}',
+                       'define zz_f begin return 2 end assign zz_x 1 '
+                       'if {{ {} }} print 1',
+                       'assign zz_x 2 hue {{ {} }} set all',
+                       'assign zz_x 2 repeat while {{ {} }} break'])
+    return form.format(' '.join(toks))
 
 
 def class_e(rng):
@@ -486,6 +515,8 @@ def run_shard(ctx):
                 judge(ctx, class_e(rng), 'E')
             elif (i // (8 * ctx.nshards)) % 4 == 2:
                 judge(ctx, class_f(rng), 'F')
+            elif (i // (8 * ctx.nshards)) % 4 == 1:
+                judge(ctx, class_g(rng), 'G')
             else:
                 judge(ctx, class_d(rng), 'D')
         if i % 5000 < ctx.nshards:
@@ -506,7 +537,7 @@ def finalize(merged):
     c = merged['counters']
     for need in ('A:rejected', 'A:accepted', 'B:rejected', 'B:accepted',
                  'C:rejected', 'D:rejected', 'E:rejected', 'F:rejected',
-                 'F:accepted',
+                 'F:accepted', 'G:rejected', 'G:accepted',
                  'verdicts_equal_on_used_compiler', 'accepted_executed'):
         if not c.get(need):
             merged['inconclusive'].append('class never observed: ' + need)
